@@ -5,10 +5,11 @@
 //   P <case id> <n instructions>          starts a program; then n instructions:
 //     C <code point> | S <k> <lo hi>*k | N <k> <lo hi>*k | A | M | J <t> | X <t1> <t2> | E
 //   T <n strings>                          then n strings, each: <len> <code point>*len
-// Output: one line per program: "<case id> <verdicts>" where verdicts is a string over {0,1}, or
-//   "<case id> HANG" (CPU limit of the child exceeded), "<case id> THROW <what>", "<case id> CRASH <signal>".
-// Every program runs in a forked child with a CPU-time limit, so that a non-terminating Match is an
-// observation and not a hang of the check.
+// Output: one line per program: "<case id> <verdicts>" where verdicts is a string over {0,1} ("-" if no strings), or
+//   "<case id> HANG <index of the string>", "<case id> THROW <what>", "<case id> CRASH <signal>".
+// Every program runs in forked children with CPU-time budgets, so that a non-terminating Match is an
+// observation and not a hang of the check; a hang is reported only after the single string has been given the
+// long budget as well.
 #include <vx/revm.hpp>
 
 #include <sys/resource.h>
@@ -22,6 +23,7 @@
 #include <iostream>
 #include <memory>
 #include <sstream>
+#include <stdexcept>
 #include <string>
 #include <vector>
 
@@ -40,12 +42,13 @@ static std::vector<revm::Range> ReadRanges(std::istream& in) {
 }
 
 int main(int argc, char** argv) {
-  if (argc < 3) {
-    std::cerr << "usage: driver <input> <cpu milliseconds per program>" << std::endl;
+  if (argc < 4) {
+    std::cerr << "usage: driver <input> <cpu ms per program> <cpu ms for one string when confirming a hang>" << std::endl;
     return 2;
   }
   std::ifstream in(argv[1]);
   const long cpu_ms = std::atol(argv[2]);
+  const long long_cpu_ms = std::atol(argv[3]);
   std::string tag;
   while (in >> tag) {
     if (tag != "P") {
@@ -99,85 +102,110 @@ int main(int argc, char** argv) {
       }
     }
 
-    int fds[2];
-    if (pipe(fds) != 0) return 2;
-    std::cout.flush();
-    const pid_t pid = fork();
-    if (pid < 0) return 2;
-    if (pid == 0) {
-      close(fds[0]);
-      struct itimerval timer;
-      timer.it_interval.tv_sec = 0;
-      timer.it_interval.tv_usec = 0;
-      timer.it_value.tv_sec = cpu_ms / 1000;
-      timer.it_value.tv_usec = (cpu_ms % 1000) * 1000;
-      setitimer(ITIMER_PROF, &timer, nullptr);  // SIGPROF after cpu_ms of CPU time: default action terminates
-      std::string out;
-      try {
-        std::vector<std::unique_ptr<revm::Instruction> > program;
-        for (size_t i = 0; i < n; ++i) {
-          const std::string& op = ops[i];
-          const std::vector<unsigned long>& a = args[i];
-          if (op == "C") {
-            program.emplace_back(new revm::InstructionChar(static_cast<wchar_t>(a[0])));
-          } else if (op == "S" || op == "N") {
-            std::vector<revm::Range> ranges;
-            for (size_t j = 0; j < a[0]; ++j) {
-              ranges.emplace_back(static_cast<wchar_t>(a[1 + 2 * j]), static_cast<wchar_t>(a[2 + 2 * j]));
-            }
-            if (op == "S") {
-              program.emplace_back(new revm::InstructionSet(std::move(ranges)));
+    // Run the strings in forked children.  A child that exceeds its CPU budget is only a *suspect*: the string it
+    // was working on is run again, alone, with the long budget; only if that run does not return either, the
+    // program is reported as hanging (on that string).  This keeps a slow, overloaded machine from producing hangs.
+    std::string verdicts;
+    std::string failure;
+    size_t start = 0;
+    bool confirming = false;
+    while (start < m && failure.empty()) {
+      const size_t stop = confirming ? start + 1 : m;
+      const long budget_raw = confirming ? long_cpu_ms : cpu_ms;
+      const long budget_ms = budget_raw > 0 ? budget_raw : 1;  // a zero timer would mean no limit at all
+      int fds[2];
+      if (pipe(fds) != 0) return 2;
+      std::cout.flush();
+      const pid_t pid = fork();
+      if (pid < 0) return 2;
+      if (pid == 0) {
+        close(fds[0]);
+        struct itimerval timer;
+        timer.it_interval.tv_sec = 0;
+        timer.it_interval.tv_usec = 0;
+        timer.it_value.tv_sec = budget_ms / 1000;
+        timer.it_value.tv_usec = (budget_ms % 1000) * 1000;
+        setitimer(ITIMER_PROF, &timer, nullptr);  // SIGPROF after the CPU budget: default action terminates
+        std::string out;
+        try {
+          std::vector<std::unique_ptr<revm::Instruction> > program;
+          for (size_t i = 0; i < n; ++i) {
+            const std::string& op = ops[i];
+            const std::vector<unsigned long>& a = args[i];
+            if (op == "C") {
+              program.emplace_back(new revm::InstructionChar(static_cast<wchar_t>(a[0])));
+            } else if (op == "S" || op == "N") {
+              std::vector<revm::Range> ranges;
+              for (size_t j = 0; j < a[0]; ++j) {
+                ranges.emplace_back(static_cast<wchar_t>(a[1 + 2 * j]), static_cast<wchar_t>(a[2 + 2 * j]));
+              }
+              if (op == "S") {
+                program.emplace_back(new revm::InstructionSet(std::move(ranges)));
+              } else {
+                program.emplace_back(new revm::InstructionNotSet(std::move(ranges)));
+              }
+            } else if (op == "A") {
+              program.emplace_back(new revm::InstructionAny());
+            } else if (op == "M") {
+              program.emplace_back(new revm::InstructionMatch());
+            } else if (op == "J") {
+              program.emplace_back(new revm::InstructionJump(a[0]));
+            } else if (op == "X") {
+              program.emplace_back(new revm::InstructionSplit(a[0], a[1]));
+            } else if (op == "E") {
+              program.emplace_back(new revm::InstructionEnd());
             } else {
-              program.emplace_back(new revm::InstructionNotSet(std::move(ranges)));
+              throw std::invalid_argument("unknown-op");
             }
-          } else if (op == "A") {
-            program.emplace_back(new revm::InstructionAny());
-          } else if (op == "M") {
-            program.emplace_back(new revm::InstructionMatch());
-          } else if (op == "J") {
-            program.emplace_back(new revm::InstructionJump(a[0]));
-          } else if (op == "X") {
-            program.emplace_back(new revm::InstructionSplit(a[0], a[1]));
-          } else if (op == "E") {
-            program.emplace_back(new revm::InstructionEnd());
-          } else {
-            out = "THROW unknown-op";
           }
-        }
-        if (out.empty()) {
-          for (const std::wstring& text : texts) {
-            out.push_back(revm::Match(program, text) ? '1' : '0');
+          for (size_t k = start; k < stop; ++k) {
+            const char verdict = revm::Match(program, texts[k]) ? '1' : '0';
+            const ssize_t ignored = write(fds[1], &verdict, 1);  // one by one: the parent sees where a child got stuck
+            (void)ignored;
           }
-          if (out.empty()) out = "-";
+        } catch (const std::exception& ex) {
+          out = std::string("!THROW ") + ex.what();
+          for (char& ch : out) {
+            if (ch == '\n') ch = ' ';
+          }
+          const ssize_t ignored = write(fds[1], out.data(), out.size());
+          (void)ignored;
         }
-      } catch (const std::exception& ex) {
-        out = std::string("THROW ") + ex.what();
-        for (char& ch : out) {
-          if (ch == '\n') ch = ' ';
-        }
+        close(fds[1]);
+        _exit(0);
       }
-      const ssize_t ignored = write(fds[1], out.data(), out.size());
-      (void)ignored;
       close(fds[1]);
-      _exit(0);
-    }
-    close(fds[1]);
-    std::string got;
-    char buf[4096];
-    ssize_t r;
-    while ((r = read(fds[0], buf, sizeof(buf))) > 0) got.append(buf, static_cast<size_t>(r));
-    close(fds[0]);
-    int status = 0;
-    waitpid(pid, &status, 0);
-    if (WIFSIGNALED(status)) {
-      const int sig = WTERMSIG(status);
-      if (sig == SIGPROF) {
-        std::cout << id << " HANG" << std::endl;
-      } else {
-        std::cout << id << " CRASH " << sig << std::endl;
+      std::string got;
+      char buf[4096];
+      ssize_t r;
+      while ((r = read(fds[0], buf, sizeof(buf))) > 0) got.append(buf, static_cast<size_t>(r));
+      close(fds[0]);
+      int status = 0;
+      waitpid(pid, &status, 0);
+      const size_t bang = got.find('!');
+      if (bang != std::string::npos) {
+        failure = got.substr(bang + 1);
+        break;
       }
+      verdicts += got;
+      start += got.size();
+      if (WIFSIGNALED(status)) {
+        const int sig = WTERMSIG(status);
+        if (sig != SIGPROF) {
+          failure = "CRASH " + std::to_string(sig);
+        } else if (confirming) {
+          failure = "HANG " + std::to_string(start);
+        } else {
+          confirming = true;  // run string number `start` alone with the long budget
+        }
+      } else {
+        confirming = false;
+      }
+    }
+    if (!failure.empty()) {
+      std::cout << id << " " << failure << std::endl;
     } else {
-      std::cout << id << " " << got << std::endl;
+      std::cout << id << " " << (verdicts.empty() ? std::string("-") : verdicts) << std::endl;
     }
   }
   return 0;
